@@ -74,7 +74,7 @@ def pr(a, st=None, parent=0, side=None):
         out = txt
     elif k == "ref":
         out = st.name(a[1])
-    elif k in ("time", "dt", "starttime", "stoptime"):
+    elif k in ("time", "dt", "starttime", "stoptime", "pi"):
         out = st.kw(k)
     elif k == "bin":
         op = a[1]
